@@ -98,8 +98,10 @@ def items_of(word):
     return list(word)
 
 
-def word_form(wd, i):
-    """the same word in another accepted form: list, tuple, one-shot iterable"""
+def word_form(wd, i, wrap=None):
+    """the same word in another accepted form: list, tuple, one-shot iterable, list of library objects"""
+    if wrap is not None and i % 5 == 2:
+        return [wrap(x) for x in wd]
     if i % 5 == 3:
         return OneShot(wd)
     if i % 5 == 4:
